@@ -215,3 +215,54 @@ Proof.
   specialize (Hsub flag_values c c (N.land_diag c)). rewrite E2 in Hsub. cbn [snd] in Hsub.
   unfold contains. rewrite N.land_comm. lia.
 Qed.
+
+(* the flags that share no bit with any flag declared before them (all single-bit classes of CategoryType) *)
+Fixpoint simple_from (pre rest : list N) : list N :=
+  match rest with
+  | [] => []
+  | f :: t => (if negb (f =? 0) && forallb (fun g => N.land g f =? 0) pre then [f] else []) ++ simple_from (pre ++ [f]) t
+  end.
+
+Lemma simple_from_split : forall rest pre f, In f (simple_from pre rest) ->
+  exists a b, rest = a ++ f :: b /\ f <> 0 /\ forall g, In g (pre ++ a) -> N.land g f = 0.
+Proof.
+  induction rest as [|x t IH]; intros pre f H; [contradiction|].
+  cbn [simple_from] in H. apply in_app_iff in H. destruct H as [H|H].
+  - destruct (negb (x =? 0) && forallb (fun g => N.land g x =? 0) pre) eqn:E; [|contradiction].
+    destruct H as [<-|[]]. apply andb_true_iff in E. destruct E as [E1 E2].
+    exists [], t. split; [reflexivity|]. split; [lia|]. rewrite app_nil_r. intros g Hg.
+    rewrite forallb_forall in E2. specialize (E2 g Hg). lia.
+  - apply IH in H. destruct H as [a [b [-> [Hnz Hd]]]]. exists (x :: a), b. split; [reflexivity|]. split; [exact Hnz|].
+    intros g Hg. apply Hd. rewrite <- app_assoc. exact Hg.
+Qed.
+
+Lemma classes_iterated_generic c f :
+  In f (simple_from [] flag_values) -> (In f (iter_flags c) <-> contains c f = true).
+Proof.
+  intros H. apply simple_from_split in H. destruct H as [a [b [E [Hnz Hd]]]].
+  apply (iter_flags_named c f a b E); auto.
+Qed.
+
+(* the statement of mecab_candidates with the prescription spelled out *)
+Definition prescribed_prop (m : mecab) (cs : list N) (off : nat) (other : N) (nd : node) : Prop :=
+  exists char_len c ctype ci oovs o l,
+    nth_error (continuity_spec cs) off = Some char_len /\ nth_error cs off = Some c
+    /\ In ctype (iter_flags c)
+    /\ find_cinfo m ctype = Some ci
+    /\ (ci_invoke ci = true \/ other = 0)
+    /\ find_oovs m (ci_type ci) = Some oovs /\ In o oovs
+    /\ nd = oov_node off (off + l)%nat o
+    /\ ((ci_group ci = true /\ l = char_len)
+        \/ (1 <= l <= ci_length ci /\ l <= (if ci_group ci then pred char_len else char_len))%nat).
+
+Lemma mecab_candidates_explicit :
+  OF.mecab_break_cmp = ">"%string -> OF.mecab_len_inclusive = true -> OF.mecab_group_dec = 1%nat ->
+  OF.continuity_forward = true ->
+  forall m cs off other ns,
+    mecab_provide m cs (continuity cs) off other = ROk ns ->
+    forall nd, In nd ns <-> prescribed_prop m cs off other nd.
+Proof.
+  intros F1 F2 F3 F4 m cs off other ns H nd.
+  rewrite (mecab_candidates_generic F1 F2 F3 m cs off other ns (continuity_eq_spec_generic F4 cs) H nd).
+  apply prescribed_iff.
+Qed.
